@@ -152,7 +152,7 @@ func diffMap(old map[string]interface{}, newAny interface{}) interface{} {
 	// (stripped) __key field would fail on the client.
 	oldKey, oldHasKey := old["__key"]
 	newKey, newHasKey := new["__key"]
-	if oldHasKey != newHasKey || oldKey != newKey {
+	if oldHasKey != newHasKey || !comparableKey(oldKey) || !comparableKey(newKey) || oldKey != newKey {
 		return markReplaced(new)
 	}
 
@@ -184,6 +184,11 @@ func diffMap(old map[string]interface{}, newAny interface{}) interface{} {
 	return d
 }
 
+// comparableKey reports whether a __key value can be compared and hashed.
+func comparableKey(key interface{}) bool {
+	return key == nil || reflect.TypeOf(key).Comparable()
+}
+
 // reoderKey returns the key to use for a
 func reorderKey(i interface{}) interface{} {
 	if i == nil {
@@ -191,6 +196,11 @@ func reorderKey(i interface{}) interface{} {
 	}
 	if object, ok := i.(map[string]interface{}); ok {
 		if key, ok := object["__key"]; ok {
+			if !comparableKey(key) {
+				// A list or an object (a client may alias any field as __key)
+				// identifies nothing.
+				return nil
+			}
 			return key
 		}
 	}
